@@ -1066,6 +1066,9 @@ class blocks_catalogue:
     def call(fn, entry, tier):
         import numpy as np
         x, expected, info = build(entry, tier)
+        if expected is None:
+            # an entry without an independent NumPy reference: the blocks must be pieces of what computing the whole gives
+            expected = np.asarray(x.compute())
         if x.ndim == 0:
             return None
         nb = x.numblocks[0]
